@@ -23,7 +23,11 @@ RULE = ("C01/C03-style programs and histories restricted to what core.h can expr
         "trace must additionally satisfy C01's value/freshness oracle. Non-trivial = a history in which a "
         "parameter's effect is observable: a force-change rule recomputed an identical value with a dependent "
         "present, or a must-follow / discovered edge or a schema-version change was exercised in a build after "
-        "the first; distinct = sha1 of the case.")
+        "the first; distinct = sha1 of the case. In 5 cases of 8 every key carries a build-system kind prefix "
+        "(node, command, custom task with its 4-byte length: all such keys are equal up to their first NUL byte) "
+        "and after every build the file is also read back through llb_database_* (epoch, get_keys_and_results, "
+        "lookup_rule_result per key): keys, values, epochs and dependency keys must equal what a fresh "
+        "core::BuildDB returns; such a case with two keys equal up to the first NUL is non-trivial too.")
 ASSUMPTIONS = ["both front ends are driven by the same C++ model code inside enginesim; only the binding layer differs"]
 
 
@@ -46,6 +50,22 @@ def capi_case(draw):
                 op["recreate"] = True
             ops.append(op)
         c["ops"] = ops
+    # llb_database_* reads keys back as build-system keys: in half of the cases every key starts with a kind
+    # identifier of the build system (node / command / custom task with its 4-byte length, which holds NUL bytes:
+    # all such keys are equal up to their first NUL), and the read-back through the C interface is compared too
+    pre = draw(st.sampled_from(["", "", "", "4e", "43", "5803000000", "4e00", "5801000000"]))
+    if pre:
+        def walk(x):
+            if isinstance(x, dict):
+                if isinstance(x.get("key"), str):
+                    x["key"] = pre + x["key"]
+                for v in x.values():
+                    walk(v)
+            elif isinstance(x, list):
+                for v in x:
+                    walk(v)
+        walk(c)
+        c["keyprefix"] = pre
     return c
 
 
@@ -70,7 +90,7 @@ def normalise(raw, front):
 
 def run(case, ctx, front):
     db = ctx.fresh("db")
-    res = em.run_enginesim(em.script_for(case, db, dump=True, front=front))
+    res = em.run_enginesim(em.script_for(case, db, dump=True, front=front), env={"ENGINESIM_CAPI_DB": "1"})
     res.raw = res.raw.replace(db, "DB")
     for suf in ("", "-journal"):
         try:
@@ -101,8 +121,17 @@ def run_case(case, ctx, verbose=False):
     v, info = c01.check_values(case, rc.events)
     if v:
         return Outcome("C interface: " + v)
+    # the persisted state read back through llb_database_* equals what core::BuildDB reads
+    for bld in rc.events["builds"]:
+        v, shared = em.check_capi_db(bld.get("db"))
+        if v:
+            return Outcome("reading the database back through the C interface: " + v)
+        if shared:
+            classes.append("db-read-back:keys-equal-up-to-first-NUL")
+        if bld.get("db") and bld["db"].get("capi"):
+            classes.append("db-read-back")
     # observability of parameters
-    nt = False
+    nt = "db-read-back:keys-equal-up-to-first-NUL" in classes
     builds = rc.events["builds"]
     for n, bld in enumerate(builds):
         s = em.summarize_build(bld)
